@@ -87,8 +87,8 @@ def source(td, rets):
                     dflt = (" = " + glyph_lit(QDEF[t])) if hasdef and not arr else ""
                     out.append("@ GET /q/q%d {\n  ? p: %s%s\n  > {ran: true, q: query}\n}\n" % (qi, ty, dflt))
                     qi += 1
-    for i, (ts, v) in enumerate(rets):
-        out.append("@ GET /ret/r%d -> %s {\n  > %s\n}\n" % (i, ts, glyph_lit(v)))
+    for i, (ts, v, st) in enumerate(rets):
+        out.append("@ GET /ret/r%d -> %s {\n  > %s%s\n}\n" % (i, ts, glyph_lit(v), (" :: %d" % st) if st else ""))
     return "\n".join(out)
 
 
@@ -108,7 +108,8 @@ def run(ck, tier, seed):
     ]
     td = typedefs()
     names = [n for n in td if n != "Addr"]
-    rets = [(ts, v) for ts, _ in RET_TYPES for v in CANDS[1:]]
+    # a return that carries a status (`> v :: 200`) is an explicit answer of the route and exempt from the declared type
+    rets = [(ts, v, st) for ts, _ in RET_TYPES for v in CANDS[1:] for st in (0, 200, 201)]
     ret_t = {ts: t for ts, t in RET_TYPES}
     # ---- TLA+ definitions
     tdtxt = "(" + " @@ ".join("(%s :> <<%s>>)" % (vf.tla(n), ", ".join(tla_field(f) for f in fs)) for n, fs in td.items()) + ")"
@@ -139,11 +140,11 @@ InputJobs == UNION {{[kind |-> "input", type |-> n, body |-> [class |-> "object"
                     n \in %(names)s, c \in {"absent", "empty", "malformed", "array", "scalar", "null", "notjson"}}
 QueryJobs == {[kind |-> "query", qi |-> i, decl |-> QDecls[i], raw |-> r] : i \in 1..Len(QDecls),
                  r \in {<<>>} \cup {<<Lex[a]>> : a \in 1..Len(Lex)} \cup {<<Lex[a], Lex[b]>> : a \in {1, 3, 5, 8}, b \in {1, 5, 6}}}
-ReturnJobs == {[kind |-> "return", ri |-> i, t |-> Rets[i].t, v |-> Rets[i].v] : i \in 1..Len(Rets)}
+ReturnJobs == {[kind |-> "return", ri |-> i, t |-> Rets[i].t, v |-> Rets[i].v, st |-> Rets[i].st] : i \in 1..Len(Rets)}
 AllJobs == InputJobs \cup QueryJobs \cup ReturnJobs
 EmitInv == (decision.d # "pending") => PrintT(<<"CASE", ToJson([job |-> job, decision |-> decision])>>)
 ''' % {"td": tdtxt, "cands": cands, "small": small, "lex": lex, "qdecls": ", ".join(vf.tla(q) for q in qdecls),
-       "rets": ", ".join(vf.tla({"t": ret_t[ts], "v": v}) for ts, v in rets),
+       "rets": ", ".join(vf.tla({"t": ret_t[ts], "v": v, "st": st}) for ts, v, st in rets),
        "dset": "Small" if quick else "1..Len(Cands)", "names": vf.tla(set(names))}
     cases = []
     r = vf.tlc("contract", "TypeContract", {"TypeDefs": vf.TlaRaw("TD"), "Jobs": vf.TlaRaw("AllJobs")},
